@@ -81,6 +81,9 @@ def strat_graph(tier):
                                       st.tuples(st.just('nprand'), st.integers(1, 50)),
                                       st.tuples(st.just('compute'), st.integers(0, 70)),
                                       st.tuples(st.just('compute'), st.integers(0, 6)),
+                                      # a batch index RELATIVE to the judged one (the judged index itself, its neighbours): the judged
+                                      # batch is then a repeat, or the high-water mark of the context's sub-seed cache
+                                      st.tuples(st.just('compute-rel'), st.sampled_from([0, 0, -1, 1, -2, 2, -5])),
                                       st.tuples(st.just('other-generate'), st.integers(0, 1000))),
                             min_size=0, max_size=6),
         'use_mp': st.integers(0, 4),
@@ -200,6 +203,8 @@ def run_graph(case):
                 np.random.rand(v)
             elif kind == 'compute':
                 warm.append(v)
+            elif kind == 'compute-rel':
+                warm.append(max(0, index + v))
             else:
                 build_graph(nodes[:max(1, len(nodes) // 2)], name='other').generate(2, seed=v)
         hist = _compute(m, outputs, bs, seed, index, warm=warm)
